@@ -101,6 +101,8 @@ func cmdSnapshotNames(args []string) {
 	os.WriteFile(namesPath, b, 0o644)
 	fb, _ := json.MarshalIndent(g.snapshotFuncs(), "", " ")
 	os.WriteFile(funcsPath, fb, 0o644)
+	sb, _ := json.MarshalIndent(g.snapshotFields(), "", " ")
+	os.WriteFile(fieldsPath, sb, 0o644)
 }
 
 // computeAliases fills g.alias: function key -> (name used by the contracts -> current name).
